@@ -77,6 +77,7 @@ struct Plan {
     b2b: Vec<Scn>,
     seq: Vec<Scn>,
     hwchg: Vec<Scn>,
+    ingress: Vec<Scn>,
     perm: Vec<Scn>,
     icmp: Vec<Scn>,
     tcp: Vec<Scn>,
@@ -303,6 +304,48 @@ fn plan(tier: Tier) -> Plan {
         }
     }
 
+    // ingress-triggered replies while the sender's fragments are pending
+    let mut ingress: Vec<Scn> = vec![];
+    for (src, dst) in [(AddrClass::LlHw, AddrClass::LlHw), (AddrClass::Global, AddrClass::Global), (AddrClass::LlHw, AddrClass::McAllNodes)] {
+        for (sp, dp) in [(1234u16, 1234u16), (0xf012, 0xf0b7)] {
+            for per in [true, false] {
+                for after in 1..=(if thorough { 5usize } else { 3 }) {
+                    for kind in [1u8, 2] {
+                        for third in [false, true] {
+                            for stim_len in if thorough { vec![60usize, 150, 400, 700, 1000] } else { vec![60usize, 400, 1000] } {
+                                let mut j = Scn::base("ingress");
+                                j.src = src;
+                                j.dst = dst;
+                                j.sport = sp;
+                                j.dport = dp;
+                                j.one_per_poll = per;
+                                j.chg_after = after;
+                                j.stim_kind = kind;
+                                j.stim_third = third;
+                                j.stim_len = stim_len;
+                                // peer: also with S's device fully blocked until the stimulus has arrived
+                                j.block_rounds = 0;
+                                let c = size_class_lens(HwKind::Ext, HwKind::Ext, &j.main_dg(0));
+                                let mut sizes = vec![c[2], 600, 1200];
+                                if thorough {
+                                    sizes.extend([300, 900, cap_len(&j)]);
+                                }
+                                for l in sizes {
+                                    for block in [0usize, 16] {
+                                        let mut k = j.clone();
+                                        k.lens = vec![l];
+                                        k.block_rounds = block;
+                                        ingress.push(k);
+                                    }
+                                }
+                            }
+                        }
+                    }
+                }
+            }
+        }
+    }
+
     // back to back
     let b2b_sizes: Vec<usize> = if thorough { vec![0, 8, 60, 100, 150, 200, 300, 600, 1200] } else { vec![8, 100, 200, 600] };
     let b2b_pairs: Vec<(HwKind, AddrClass, AddrClass)> = if thorough {
@@ -452,12 +495,14 @@ fn plan(tier: Tier) -> Plan {
         "udp_prefill_variants": "all ext-ext address pairs x 2 port pairs x 2 hop limits with transmit buffers pre-filled 0x5a, 0xff, 0x00 (everything else 0xa5)",
         "hwchg": {"scenarios": hwchg.len(), "what": "one fragmented datagram; Interface::set_hardware_addr on the sender after 1..k exchange rounds while fragments are pending",
             "transitions": ["ext->ext", "ext->short", "short->ext"], "device": ["unlimited", "one frame per poll"], "sizes": "3 frames, 600, largest the fragmentation buffer admits (thorough: + 2 frames, 300, 1000)"},
+        "ingress": {"scenarios": ingress.len(), "what": "S starts a fragmented datagram; after 1..k rounds, while fragments are pending, it receives an echo request / a UDP datagram to a closed port (payload 60..1000) from the peer or from a third node (captured frames incl. its neighbor solicitation); the automatic reply may need fragmentation itself",
+            "device": ["one frame per poll", "unlimited", "each also fully blocked for 16 rounds while the stimulus arrives"], "sizes of S's datagram": "3 frames, 600, 1200 (thorough: + 300, 900, largest)"},
         "b2b": {"scenarios": b2b.len(), "sizes (each of two datagrams)": b2b_sizes, "address pairs": b2b_pairs.len(), "port pairs": b2b_ports.len()},
         "perm": {"captures": perm.len(), "address pairs": perm_pairs.len(), "port pairs": perm_ports.len(), "sequences": "n!: 2/6/24 permutations; n<=3: + every permutation with one fragment inserted a second time at any position (6 resp. 36 distinct sequences more)"},
         "icmp": {"scenarios": icmp.len(), "address configs": UNICAST_CLASSES.len() * icmp_dsts.len(), "hop limits": HOP_LIMITS},
         "tcp": {"scenarios": tcp.len(), "bytes each way": tcp_n, "address pairs": tcp_pairs.len(), "device mtu": [1500, 125], "hop limits": tcp_hl},
     });
-    Plan { udp, b2b, seq, hwchg, perm, icmp, tcp, dims }
+    Plan { udp, b2b, seq, hwchg, ingress, perm, icmp, tcp, dims }
 }
 
 fn run_one(scn: &Scn, acc: &mut Acc) {
@@ -465,6 +510,7 @@ fn run_one(scn: &Scn, acc: &mut Acc) {
         "udp" => run_udp_job(scn, &scn.lens.clone(), None, false, acc),
         "b2b" | "seq" => run_b2b(scn, acc),
         "hwchg" => run_hwchg(scn, acc),
+        "ingress" => run_ingress(scn, acc),
         "icmp" => run_icmp(scn, acc),
         "tcp" => run_tcp(scn, acc),
         "mld" => run_mld(acc),
@@ -580,6 +626,8 @@ fn finalize(sig: &str, scn: &Scn, _detail: &str) -> Result<(String, Scn, String)
             let ch1 = hdr_sizes(t.s_hw, t.r_hw, t.src, t.dst, t.sport, t.dport, t.hl, t.proto()).1;
             let same = (orig.lens[0] + ch0).saturating_sub(ch1);
             vec![t.clone(), Scn { lens: vec![same], ..t.clone() }, Scn { lens: vec![1400], ..t.clone() }, Scn { lens: vec![300], ..t }]
+        } else if orig.part == "ingress" && t.part == "ingress" {
+            vec![t.clone(), Scn { lens: vec![1200], ..t }]
         } else if orig.part == "hwchg" && t.part == "hwchg" {
             vec![t.clone(), Scn { lens: vec![600], ..t }]
         } else {
@@ -605,6 +653,33 @@ fn finalize(sig: &str, scn: &Scn, _detail: &str) -> Result<(String, Scn, String)
     if scn.part == "b2b" {
         steps.push(Box::new(|s| if s.part == "b2b" { vec![Scn { part: "udp".into(), lens: vec![s.lens[0]], ..s.clone() }] } else { vec![] }));
         steps.push(Box::new(|s| if s.part == "b2b" { vec![Scn { part: "udp".into(), lens: vec![*s.lens.last().unwrap()], ..s.clone() }] } else { vec![] }));
+    }
+    if scn.part == "ingress" {
+        // without the disturbance (then it is an ordinary single-datagram failure)
+        steps.push(Box::new(|s| if s.part == "ingress" { vec![Scn { part: "udp".into(), stim_kind: 0, stim_third: false, stim_len: 0, chg_after: 0, one_per_poll: false, ..s.clone() }] } else { vec![] }));
+        steps.push(dim(|t| t.stim_third = false));
+        steps.push(dim(|t| t.block_rounds = 0));
+        steps.push(dim(|t| {
+            if t.part == "ingress" {
+                t.stim_kind = 1
+            }
+        }));
+        steps.push(dim(|t| {
+            if t.part == "ingress" && t.stim_len > 60 {
+                t.stim_len = 60
+            }
+        }));
+        steps.push(dim(|t| {
+            if t.part == "ingress" && t.stim_len > 400 {
+                t.stim_len = 400
+            }
+        }));
+        steps.push(dim(|t| t.one_per_poll = false));
+        steps.push(dim(|t| {
+            if t.part == "ingress" {
+                t.chg_after = 1
+            }
+        }));
     }
     if scn.part == "hwchg" {
         // without the address change at all (then it is an ordinary single-datagram failure)
@@ -817,6 +892,7 @@ pub fn run(tier: Tier) -> i32 {
     let t_b2b = rep.t0.elapsed().as_secs_f64();
     total.merge(par_run(&p.seq, 16, |s, a| run_b2b(s, a)));
     total.merge(par_run(&p.hwchg, 16, |s, a| run_hwchg(s, a)));
+    total.merge(par_run(&p.ingress, 16, |s, a| run_ingress(s, a)));
     let t_seq = rep.t0.elapsed().as_secs_f64();
     total.merge(par_run(&p.perm, 8, |s, a| run_perm(s, a)));
     let t_perm = rep.t0.elapsed().as_secs_f64();
